@@ -80,7 +80,18 @@ def gen_history(r, name, malformed=False):
             k = new_key(f)
             if k is None or not free_slots:
                 continue
-            kind = r.choice(["sw", "sw", "new", "hl", "hl", "put"])
+            kind = r.choice(["sw", "sw", "new", "hl", "hl", "put", "hx"])
+            if kind == "hx":
+                if getattr(sh, "nx", 0) >= 4:
+                    kind = "hl"
+                else:
+                    s = free_slots.pop(0)
+                    lines.append("hxcreate %d %d %d %d %d %d 0" % (s, f, k[0], k[1], sh.nx if hasattr(sh, "nx") else 0,
+                                                                  r.choice([0, 0, 3, 17])))
+                    sh.nx = getattr(sh, "nx", 0) + 1
+                    els[k] = dict(len=0, hi=0, linked=True, new=False, alias=False)
+                    sh.h[s] = dict(f=f, key=k, pos=0, app=False, wr=True)
+                    continue
             if kind == "put":
                 n = pick_len(r)
                 lines.append("putelement %d %d %d %s" % (f, k[0], k[1], hexs(rbytes(r, n))))
@@ -127,7 +138,11 @@ def gen_history(r, name, malformed=False):
                 lines.append("startwrite %d %d %d %d %d" % (s, f, k[0], k[1], r.choice([0, 5, 50])))
                 sh.h[s] = dict(f=f, key=k, pos=0, app=False, wr=True)
             else:
-                lines.append("hlcreate %d %d %d %d %d %d" % (s, f, k[0], k[1], r.randrange(1, 10), r.randrange(1, 5)))
+                if getattr(sh, "nx", 0) < 4 and r.random() < 0.4 and e["hi"] >= e["len"]:
+                    lines.append("hxcreate %d %d %d %d %d %d 0" % (s, f, k[0], k[1], getattr(sh, "nx", 0), r.choice([0, 5])))
+                    sh.nx = getattr(sh, "nx", 0) + 1
+                else:
+                    lines.append("hlcreate %d %d %d %d %d %d" % (s, f, k[0], k[1], r.randrange(1, 10), r.randrange(1, 5)))
                 e["linked"] = True
                 sh.h[s] = dict(f=f, key=k, pos=0, app=False, wr=True)
             continue
@@ -447,14 +462,14 @@ def signature(ctx, hist, i):
     slot_key = {}
     for l in hist[:i]:
         t = l.split()
-        if t[0] in ("startwrite", "startaccess", "hlcreate"):
+        if t[0] in ("startwrite", "startaccess", "hlcreate", "hxcreate"):
             slot_key[int(t[1])] = (int(t[2]), int(t[3]), int(t[4]))
     t = hist[i].split()
     if t[0] in ("write", "read", "seek", "tell", "trunc", "inquire", "end", "appendable"):
         want = slot_key.get(int(t[1]))
     elif t[0] in ("getelement", "length", "exist", "putelement", "deldd"):
         want = (int(t[1]), int(t[2]), int(t[3]))
-    elif t[0] in ("startwrite", "startaccess", "hlcreate"):
+    elif t[0] in ("startwrite", "startaccess", "hlcreate", "hxcreate"):
         want = (int(t[2]), int(t[3]), int(t[4]))
     elif t[0] == "reopen":
         want = (int(t[1]), None, None)
